@@ -234,6 +234,16 @@ func ParseType(vt reflect.Type, def string) (*Type, error) {
 	return doParseType(vt, def, &i, true)
 }
 
+// isKeyword reports whether tv is the keyword (one of the keywords) of tag
+func isKeyword(tag Tag, tv string) bool {
+	for _, kw := range strings.Fields(keywordTab[tag]) {
+		if kw == tv {
+			return true
+		}
+	}
+	return false
+}
+
 func isident(c byte) bool {
 	return isident0(c) || c >= '0' && c <= '9'
 }
@@ -369,7 +379,7 @@ func doParseType(vt reflect.Type, def string, i *int, allowPtrs bool) (*Type, er
 	if def != "" {
 		if tv, et := readToken(def, i, false); et != nil {
 			return nil, et
-		} else if !strings.Contains(keywordTab[tag], tv) {
+		} else if !isKeyword(tag, tv) {
 			if !isident0(tv[0]) {
 				return nil, mkMistyped(*i-len(tv), def, tv, tag, vt)
 			} else if ok, ex := doMatchStruct(vt, def, i, &tv); ex != nil {
